@@ -2121,7 +2121,7 @@ func streamHist(cfg *Config, res *Result) error {
 
 func isReadOnly(op Op) bool {
 	switch op.K {
-	case "stat", "lstat", "readlink", "read":
+	case "stat", "lstat", "readlink", "read", "fstat":
 		return true
 	}
 	return false
